@@ -154,7 +154,7 @@ def gen_tuple(rng, **kw):
     n = rng.randint(1, 4)
     pairs, seen = [], set()
     for _ in range(n):
-        key = rng.choice(WORDS + ["Color", "Display Name", "k1", "5abc", "a.b", "Cover%", "Units/", "x.5y", "/p/q", "k.", "%", "True", "Flag  two"])
+        key = rng.choice(WORDS + ["Color", "Display Name", "DisplayName", "DisplayName", "Description", "k1", "5abc", "a.b", "Cover%", "Units/", "x.5y", "/p/q", "k.", "%", "True", "Flag  two"])
         if key in seen:
             continue
         seen.add(key)
